@@ -1,0 +1,17 @@
+//go:build verif
+
+// Contracts for package server: the pipelining queue of a pending answer (C12).
+package server
+
+//@ option nolockhavoc immutable:queueCaller.aq
+
+// PARTIAL.  fulfill delivers queued call number i to bases[q[i].basis] and makes the result of
+// that call the target bases[i+1] (bases[0] is the answer itself).  A call pipelined on the result
+// of the call enqueued here must therefore carry the basis "index of this entry + 1", which is the
+// queue length after the append.  The mutex is released on every return.
+//@ func queueCaller.PipelineRecv -> pc
+//@   props C12
+//@   locktypestate
+//@   partial lock
+//@   requires qc.aq != nil && nolocks()
+//@   assert before "qc.aq.mu.Unlock()#2" nextbase: basis == len(qc.aq.q)
